@@ -24,6 +24,8 @@ KVS = "lsmtk::kvs::KeyValueStore::"
 TREE = "lsmtk::tree::LsmTree::"
 
 RERR_EXCEPTIONS = {
+    ("lsmtk::verifier::LsmVerifier::get_cursor", "err-arm-ignored(file_manager::open_without_manager)"):
+        "location fallback: trash/<setsum> is tried, then sst/<setsum>, then trash/ again with `?`, so the final failure is the one reported",
     ("lsmtk::tree::LsmTree::explicit_unref", "discard fs::rename"):
         "a failed move leaves an orphan in sst/, the safe side of C08; not on any acknowledgement path",
     ("lsmtk::tree::LsmTree::cleanup_orphans", "discard fs::rename"):
